@@ -38,6 +38,9 @@ def run(ctx):
         "disagreement_signatures": rep["sig_counts"],
     }
     cov.update(extra.get("coverage", {}))
+    import p_boot
+    cov["bootstrap"] = p_boot.run(ctx, p_boot.K_C17, 300 if ctx.tier == "thorough" else 70, "C17")
+    cov["traces_validated_against_impl"] += cov["bootstrap"]["scenarios"]
     C.write_evidence(ctx, "model_checking", cov,
                      ["strconv.Atoi decides what a decimal number is", "error descriptions are compared with the catalogue in errors.go of the working tree"])
 
